@@ -347,6 +347,14 @@ def run(ck):
                   if okm else (bad2_[0] if bad2_ else f"single range, {_desc13(sorted(bad1_)[0])}: "
                                f"{bad1_[sorted(bad1_)[0]]}"), cont_, cont_.node)
 
+    R10 = ck.rule('R07.10', "the scheduler's registry: after any sequence of add_block / remove_block calls "
+                  "(two blocks, a full-hour and another time of day, up to three calls) a time of day is a key "
+                  "of _alarms exactly while at least one block is registered for it, with exactly those "
+                  "blocks; creating or deleting a key that is not one of the 24 fixed wake-ups requests a "
+                  "reload (abstract run)", 'abstract run', 1)
+    with ck.section('R07.10'):
+        _registry_run(ck, R10, prog)
+
     with ck.section('R07.5'):
         # ------------------------------------------------------------------ R07.5
         tdc = prog.cls(TD)
@@ -542,3 +550,61 @@ def run(ck):
               "the midnight wrap of the delay is missing, conditional on something else, or not one day: "
               "the wake-up after 23:xx would be scheduled a day early / late", mt,
               wraps[0].ast if wraps else st8[0])
+
+
+def _registry_run(ck, R10, prog):
+    from sa.minieval import MiniEval, Obj, ModuleGlobals
+    cron = prog.cls('blocklib.cron:Cron')
+    add, rem = cron.methods.get('add_block'), cron.methods.get('remove_block')
+    ck.need(R10, add is not None and rem is not None, "Cron.add_block / remove_block not found")
+
+    def resolve(text):
+        if text.startswith('self.') and text[5:].isidentifier() and text[5:] not in ('_check_tz',):
+            f_ = prog.resolve_method(cron, text[5:])
+            if f_ is not None and f_.cls is cron and not prog.is_dummy(f_):
+                return f_.node
+        return None
+    TIMES = ('HOUR', 'OTHER')          # a time that is one of the 24 fixed wake-ups, and one that is not
+    BLOCKS = ('b1', 'b2')
+    ops = [(k, t, b) for k in ('add', 'remove') for t in TIMES for b in BLOCKS]
+    bad = []
+    n = 0
+    for length in (1, 2, 3):
+        for seq in itertools.product(ops, repeat=length):
+            alarms = {}
+            flag = [False]
+            fl = Obj('flag', {'OR': lambda v: flag.__setitem__(0, flag[0] or bool(v)),
+                              'set': lambda v=True: flag.__setitem__(0, bool(v)),
+                              'clear': lambda: flag.__setitem__(0, False)})
+            model, mflag = {}, False
+            for k, t, b in seq:
+                fi = add if k == 'add' else rem
+                params = [a.arg for a in fi.node.args.args]
+                env = {'self': 'SELF', params[1]: t, params[2]: b, 'self._alarms': alarms,
+                       'self._needs_reload': fl, 'self._check_tz': lambda x: x, 'hasattr': lambda o, a: True}
+                glob = ModuleGlobals(prog, fi.module, {'_SET24': frozenset({'HOUR'})})
+                out = MiniEval(R10, env, resolve, globals_=glob).run(fi.node.body)
+                if k == 'add':
+                    if t not in model:
+                        model[t] = set()
+                        mflag = mflag or t != 'HOUR'
+                    model[t].add(b)
+                elif t in model:
+                    model[t].discard(b)
+                    if not model[t]:
+                        del model[t]
+                        mflag = mflag or t != 'HOUR'
+                if out != ('return', None):
+                    bad.append(f"{list(seq)}: {k}_block ends with {out}")
+                    break
+            n += 1
+            got = {t_: set(v) for t_, v in alarms.items()}
+            if got != model and len(bad) < 3:
+                bad.append(f"after {[f'{k}({t},{b})' for k, t, b in seq]}: _alarms = {got}, documented {model}")
+            elif mflag and not flag[0] and len(bad) < 3:
+                bad.append(f"after {[f'{k}({t},{b})' for k, t, b in seq]}: no reload requested although a wake-up "
+                           "time was created or deleted")
+    ck.abstract_cases += n
+    ck.ob(R10, f"{add.fid} / {rem.fid} :: abstract run", not bad,
+          f"registry = registered blocks per time on all {n} call sequences" if not bad else '; '.join(bad[:2]),
+          rem, rem.node)
